@@ -58,6 +58,10 @@ end OnosVerif.V3
 
 namespace OnosVerif.V3
 
+theorem ite_last_true {α β γ : Type} (c : Prop) [Decidable c] (a1 a2 : α) (b1 b2 : β) (c1 c2 : γ) (w : Bool) :
+    (if c then (a1, b1, c1, true || w) else (a2, b2, c2, true)).2.2.2 = true := by
+  split <;> simp
+
 /-- the second write of a two-write branch, from the state after the first -/
 theorem runActs_second {s s1 : Sys} {i : Nat} {t : Tx} {last : Option Str} {a b : Act} {inj2 : List Inj}
     (he : Enabled (core s) i t.core [a, b]) (hk : (core s).tx i = some t.core)
@@ -85,40 +89,42 @@ theorem runActs_second {s s1 : Sys} {i : Nat} {t : Tx} {last : Option Str} {a b 
     intro s2 h2
     rw [h2, h1]
     exact CStar.single (CStep.both _ i t.core a b hk he)
+  have hsame : ∀ s2, core s2 = core s1 → CStar (core s) (core s2) := by
+    intro s2 h2; rw [h2]; exact hfirst
   simp only [runActs] at hsf ⊢
   cases hj : inj2.headD Inj.ok <;> simp only [hj] at hsf ⊢
   · -- ok
-    simp only [Bool.or_false, Bool.not_eq_eq_eq_not, Bool.not_false] at hsf
-    exact hboth _ (core_applyAct_eq hsf hb_tx)
+    by_cases hso : storeOK s1 b last = true
+    · simp only [hso, if_true]
+      exact hboth _ (core_applyAct_eq hso hb_tx)
+    · simp only [hso, Bool.false_eq_true, if_false] at hsf
+      rw [ite_last_true] at hsf; cases hsf
   · exact hfirst
   · -- conflict
-    split
-    · simp only; rw [core_sideWrite, core_touchCfg]; exact hfirst
-    · simp only; rw [core_touchTx]; exact hfirst
+    split <;> split <;> first
+      | exact hsame _ (by rw [core_sideWrite, core_touchCfg])
+      | exact hsame _ (core_touchTx _ _)
   · -- sideOnly
     split
-    · simp only; rw [core_sideWrite]; exact hfirst
+    · exact hsame _ (core_sideWrite _ _ _)
     · rename_i hb
-      simp only
       have hb' : b.isCfg = false := by simpa using hb
       exact hboth _ (core_applyAct_eq (by simp [storeOK, hb']) hb_tx)
   · -- race
-    split
-    · rename_i hb
-      simp only [hb, if_true, Bool.or_false, Bool.not_eq_eq_eq_not, Bool.not_false] at hsf
-      simp only
-      exact hboth _ (core_applyAct_eq hsf hb_tx)
-    · rename_i hb
-      have hb' : b.isCfg = false := by simpa using hb
+    by_cases hb : b.isCfg = true
+    · simp only [hb, if_true] at hsf ⊢
+      by_cases hso : storeOK s1 b last = true
+      · simp only [hso, if_true]
+        exact hboth _ (core_applyAct_eq hso hb_tx)
+      · simp only [hso, Bool.false_eq_true, if_false] at hsf
+        rw [ite_last_true] at hsf; cases hsf
+    · have hb' : b.isCfg = false := by simpa using hb
+      simp only [hb', Bool.false_eq_true, if_false]
       cases hl : (nbRollback s1 i).2
-      · simp only [hl, Bool.false_eq_true, if_false]
+      · simp only [Bool.false_eq_true, if_false]
         exact hboth _ (core_applyAct_eq (by simp [storeOK, hb']) hb_tx)
-      · simp only [hl, if_true]
-        exact hfirst.trans (nbRollback_star s1 i)
-
-end OnosVerif.V3
-
-namespace OnosVerif.V3
+      · simp only [if_true]
+        split <;> exact hfirst.trans (nbRollback_star s1 i)
 
 theorem runActs_star {s : Sys} {i : Nat} {t : Tx} {last : Option Str} {acts : List Act} {inj : List Inj}
     (hg : getTx s i = some t) (he : Enabled (core s) i t.core acts) (hsafe : safeInj inj = true)
@@ -135,14 +141,16 @@ theorem runActs_star {s : Sys} {i : Nat} {t : Tx} {last : Option Str} {acts : Li
       intro s1 h1; rw [h1]; exact CStar.single (CStep.first _ i t.core a [] hk he)
     simp only [runActs] at hsf ⊢
     cases hj : inj.headD Inj.ok <;> simp only [hj] at hsf ⊢
-    · simp only [Bool.or_false, Bool.not_eq_eq_eq_not, Bool.not_false] at hsf
-      exact hone _ (core_applyAct_eq hsf ha_tx)
+    · by_cases hso : storeOK s a last = true
+      · simp only [hso, if_true]
+        exact hone _ (core_applyAct_eq hso ha_tx)
+      · simp only [hso, Bool.false_eq_true, if_false] at hsf
+        rw [ite_last_true] at hsf; cases hsf
     · exact .refl _
     · exact absurd hj hnc
     · split
-      · simp only; rw [core_sideWrite]; exact .refl _
+      · exact CStar.of_eq (core_sideWrite _ _ _)
       · rename_i ha
-        simp only
         have ha' : a.isCfg = false := by simpa using ha
         exact hone _ (core_applyAct_eq (by simp [storeOK, ha']) ha_tx)
     · exact absurd hj hnr
@@ -153,20 +161,20 @@ theorem runActs_star {s : Sys} {i : Nat} {t : Tx} {last : Option Str} {acts : Li
     rw [runActs] at hsf ⊢
     cases hj : inj.headD Inj.ok <;> simp only [hj] at hsf ⊢
     · -- ok
-      have hs1 : storeOK s a last = true := by
-        cases h : storeOK s a last
-        · simp [h] at hsf
-        · rfl
-      have h1 := core_applyAct_eq hs1 ha_tx
-      have hsf2 : (runActs (applyAct s a last) i last [b] inj.tail).2.2.2 = false := by
-        cases h : (runActs (applyAct s a last) i last [b] inj.tail).2.2.2
-        · rfl
-        · simp [h] at hsf
-      exact runActs_second he hk h1 (fun hc => by rw [getTx_applyAct_cfg hc]; exact hg) hsf2
+      by_cases hso : storeOK s a last = true
+      · simp only [hso, if_true] at hsf ⊢
+        have h1 := core_applyAct_eq hso ha_tx
+        have hsf2 : (runActs (applyAct s a last) i last [b] inj.tail).2.2.2 = false := by
+          cases h : (runActs (applyAct s a last) i last [b] inj.tail).2.2.2
+          · rfl
+          · simp [h] at hsf
+        exact runActs_second he hk h1 (fun hc => by rw [getTx_applyAct_cfg hc]; exact hg) hsf2
+      · simp only [hso, Bool.false_eq_true, if_false] at hsf
+        rw [ite_last_true] at hsf; cases hsf
     · exact .refl _
     · exact absurd hj hnc
     · split
-      · simp only; rw [core_sideWrite]; exact .refl _
+      · exact CStar.of_eq (core_sideWrite _ _ _)
       · rename_i ha
         have ha' : a.isCfg = false := by simpa using ha
         simp only [ha', Bool.false_eq_true, if_false] at hsf
@@ -177,10 +185,6 @@ theorem runActs_star {s : Sys} {i : Nat} {t : Tx} {last : Option Str} {acts : Li
           · simp [h] at hsf
         exact runActs_second he hk h1 (fun hc => by rw [hc] at ha'; cases ha') hsf2
     · exact absurd hj hnr
-
-end OnosVerif.V3
-
-namespace OnosVerif.V3
 
 theorem devSet_shape (s : Sys) (v : Values) (e : Nat) (n : Str) : ∃ d, (devSet s v e n).1 = { s with dev := d } := by
   unfold devSet
@@ -197,7 +201,7 @@ theorem stepTx_star (s : Sys) (i : Nat) (verdict : Verdict) (ans : Str) (inj : L
     CStar (core s) (core (stepTx s i verdict ans inj last).1) := by
   unfold stepTx at hsf ⊢
   simp only at hsf ⊢
-  cases hp : planTx s i verdict ((ansOfName (effName s ans)).getD DevAns.unknown) with
+  cases hp : planTx s i verdict (effAns (effName s ans)) with
   | fall => exact .refl _
   | panic e => exact .refl _
   | plan p =>
